@@ -59,7 +59,9 @@ def _recorders(rec):
 
 
 def _sym_setup(rec, win_kind):
+    """the whole analysis module re-created over one namespace: kernels -> recorders, numpy -> shim, window/Q builders -> tags"""
     import speckit.analysis as A
+    from symx.shim import clone_module
 
     class KaiserTag:
         pass
@@ -71,23 +73,24 @@ def _sym_setup(rec, win_kind):
         if key not in rec.wins:
             rec.wins[key] = oarr([SR(z3.Real("win%d_%d_%d" % (len(rec.wins), M, i))) for i in range(int(M))])
         return rec.wins[key].copy().view(SymNd)
-    over = dict(np=NumpyShim(), _build_Q=lambda L, order: (rec.q_calls.append((int(L), int(order))) or QTag(int(L), int(order))),
-                SpectrumResult=R.sym_class())
+    NP = NumpyShim(interp=R.interp_stub)
+    over = dict(np=NP, _build_Q=lambda L, order: (rec.q_calls.append((int(L), int(order))) or QTag(int(L), int(order))))
     over.update(_recorders(rec))
     if win_kind == "kaiser":
         over["np_kaiser"] = win_stub
         over["sp_kaiser"] = kz
-    return over, win_stub
+    G = clone_module(A, over, importer=lambda name, fromlist: (NP if name == "numpy" else None))
+    return G, win_stub
 
 
-def _mk(W, A, cls_over, N, order, iscsd, backend, win_kind, win_stub, alpha, fs, x1, x2, plan=None, band=None, olap=0.5):
-    a = object.__new__(A.SpectrumAnalyzer)
+def _mk(W, G, N, order, iscsd, backend, win_kind, win_stub, alpha, fs, x1, x2, plan=None, band=None, olap=0.5):
+    a = object.__new__(G["SpectrumAnalyzer"])
     a.fs = fs; a.nx = N; a.verbose = False; a.iscsd = iscsd
     a.x1, a.x2 = x1, x2
     a.data = x1
     a.config = {"order": order, "backend": backend, "win_func": win_stub, "alpha": alpha if win_kind == "kaiser" else None, "final_olap": olap,
                 "band": band, "Lmin": 1, "bmin": 1.0, "Kdes": 10, "Jdes": 5, "force_target_nf": False, "num_patch_pts": None, "N": N,
-                "scheduler_func": (lambda **kw: plan), "scheduler_name": "stub"}
+                "scheduler_func": (lambda **kw: plan), "scheduler_name": "stub", "psll": 120, "win": "kaiser" if win_kind == "kaiser" else "other", "win_name": win_kind}
     a._plan_cache = None
     return a
 
@@ -130,29 +133,34 @@ def _same(a, b):
     return False
 
 
-def ob_compute(W, Ls, Ks, order, iscsd, backend, win_kind):
+def ob_compute(W, Ls, Ks, order, iscsd, backend, win_kind, prior=False):
     """compute() on a symbolic plan: per-bin kernel dispatch, arguments, placement of the results, window sums"""
     nf = len(Ls)
     N = max(Ls) + 6
     fs = W.real("fs")
     fvals = [W.real("f%d" % j) for j in range(nf)]
     if not W.sym:
-        return _concrete_compute(W, Ls, Ks, order, iscsd, backend, win_kind, N, fs, fvals)
-    import speckit.analysis as A
+        return _concrete_compute(W, Ls, Ks, order, iscsd, backend, win_kind, N, fs, fvals, prior)
     W.assume(fs > 0)
     rec = Rec()
-    over, win_stub = _sym_setup(rec, win_kind)
+    G, win_stub = _sym_setup(rec, win_kind)
     x1 = W.reals("x", N); x2 = W.reals("y", N) if iscsd else None
-    alpha = 2.5
     D = [rnp.round(rnp.arange(k) * ((N - L) / max(k - 1, 1))).astype(rnp.int64) if k > 1 else rnp.array([0], dtype=rnp.int64) for L, k in zip(Ls, Ks)]
-    plan = {"f": oarr(fvals), "r": oarr([fs / L for L in Ls]), "b": oarr([fvals[j] * Ls[j] / fs for j in range(nf)]), "L": rnp.array(Ls, dtype=rnp.int64),
-            "K": rnp.array(Ks, dtype=rnp.int64), "navg": rnp.array(Ks, dtype=rnp.int64), "D": D, "O": rnp.zeros(nf), "nf": nf}
-    a = _mk(W, A, over, N, order, iscsd, backend, win_kind, win_stub, alpha, fs, x1, x2)
-    a._plan_cache = plan
-    comp = clone(A.SpectrumAnalyzer.compute, **over)
-    a._lpsd_core = lambda idx: clone(A.SpectrumAnalyzer._lpsd_core, **over)(a, idx)
-    a.plan = lambda: plan
-    res = comp(a)
+
+    def mkplan():
+        return {"f": oarr(fvals), "r": oarr([fs / L for L in Ls]), "b": oarr([fvals[j] * Ls[j] / fs for j in range(nf)]), "L": rnp.array(Ls, dtype=rnp.int64),
+                "K": rnp.array(Ks, dtype=rnp.int64), "navg": rnp.array(Ks, dtype=rnp.int64), "D": [d.copy() for d in D], "O": rnp.zeros(nf), "nf": nf}
+    if prior:
+        # an earlier analysis in the same process (same class objects, same window function, another shape parameter / other data):
+        # whatever it leaves behind must not leak into the analysis under test
+        a0 = _mk(W, G, N, order, iscsd, backend, win_kind, win_stub, 1.25, fs, W.reals("px", N), W.reals("py", N) if iscsd else None)
+        a0._plan_cache = mkplan()
+        a0.compute()
+        rec.calls.clear()
+    alpha = 2.5
+    a = _mk(W, G, N, order, iscsd, backend, win_kind, win_stub, alpha, fs, x1, x2)
+    a._plan_cache = mkplan()
+    res = a.compute()
     W.goal("one-kernel-call-per-bin", len(rec.calls) == nf, n=len(rec.calls))
     if len(rec.calls) != nf:
         return
@@ -182,7 +190,7 @@ def _ref_stats(x1, x2, starts, L, w, omega, order):
     return K.reference(_W(), x1, y, list(starts), L, w, omega, order, "csd" if x2 is not None else "auto")
 
 
-def _concrete_compute(W, Ls, Ks, order, iscsd, backend, win_kind, N, fs, fvals):
+def _concrete_compute(W, Ls, Ks, order, iscsd, backend, win_kind, N, fs, fvals, prior=False):
     """replay: the real compute() on pseudo-random data with a stub scheduler returning the plan, against the reference estimator"""
     import speckit.analysis as A
     rng = rnp.random.default_rng(7)
@@ -197,6 +205,9 @@ def _concrete_compute(W, Ls, Ks, order, iscsd, backend, win_kind, N, fs, fvals):
                 "navg": rnp.array(Ks), "D": [d.copy() for d in D], "O": rnp.zeros(len(Ls)), "nf": len(Ls)}
     ok = True
     try:
+        if prior:
+            A.SpectrumAnalyzer(rng.standard_normal((2, Nr)) if iscsd else rng.standard_normal(Nr), fsr, order=order, backend=backend,
+                               win=("kaiser" if win_kind == "kaiser" else "hann"), psll=60, scheduler=sched, olap=0.5).compute()
         a = A.SpectrumAnalyzer(data, fsr, order=order, backend=backend, win=("kaiser" if win_kind == "kaiser" else "hann"), psll=120, scheduler=sched, olap=0.5)
         res = a.compute()
         alpha = a.config.get("alpha")
@@ -225,17 +236,13 @@ def ob_single(W, N, L, fres, olap, order, iscsd, backend, win_kind):
     freq = W.real("freq", lo=0)
     if not W.sym:
         return _concrete_single(W, N, L, fres, olap, order, iscsd, backend, win_kind, float(freq))
-    import speckit.analysis as A
     W.assume(freq <= F(1, 2))
     rec = Rec()
-    over, win_stub = _sym_setup(rec, win_kind)
-    over["_np"] = over["np"]
+    G, win_stub = _sym_setup(rec, win_kind)
     x1 = W.reals("x", N); x2 = W.reals("y", N) if iscsd else None
     alpha = 2.5
-    a = _mk(W, A, over, N, order, iscsd, backend, win_kind, win_stub, alpha, fs, x1, x2, olap=olap)
-    importer = lambda name, fromlist: (over["np"] if name == "numpy" else None)
-    f = clone(A.SpectrumAnalyzer.compute_single_bin, importer=importer, **over)
-    res = f(a, freq, fres=fres, L=L)
+    a = _mk(W, G, N, order, iscsd, backend, win_kind, win_stub, alpha, fs, x1, x2, olap=olap)
+    res = a.compute_single_bin(freq, fres=fres, L=L)
     W.goal("one-kernel-call", len(rec.calls) == 1)
     if len(rec.calls) != 1:
         return
@@ -347,6 +354,9 @@ def obligations(tier):
         obs.append({"name": "compute/L%s/o%d/%s/%s/%s" % ("-".join(map(str, Ls)), order, "csd" if cs else "auto", bk, wk), "fn": "ob_compute",
                     "params": dict(Ls=Ls, Ks=Ks, order=order, iscsd=cs, backend=bk, win_kind=wk)})
     # auto backend switches to cuda above 1000 segments
+    for order, cs, bk, wk in ((0, True, "numba", "kaiser"), (-1, False, "numpy", "kaiser"), (2, True, "cuda", "kaiser"), (1, False, "auto", "other")):
+        obs.append({"name": "compute/after-prior-analysis/o%d/%s/%s/%s" % (order, "csd" if cs else "auto", bk, wk), "fn": "ob_compute",
+                    "params": dict(Ls=[6, 4, 6], Ks=[1, 3, 2], order=order, iscsd=cs, backend=bk, win_kind=wk, prior=True), "weight": 3})
     for order, cs in ((0, True), (2, False)):
         obs.append({"name": "compute/auto-bigK/o%d/%s" % (order, "csd" if cs else "auto"), "fn": "ob_compute",
                     "params": dict(Ls=[4, 4], Ks=[1001, 2], order=order, iscsd=cs, backend="auto", win_kind="kaiser"), "weight": 5})
